@@ -28,8 +28,11 @@ and path kind), if the model is not `Representable` – payload larger than the 
 longer than 1020 bytes or not 4-aligned, flow id ≥ 2^20, an unknown host address whose id does not fit 2 bits /
 whose nibble is the one of IPv4, IPv6 or service addresses / whose length is not 4–16, a standard path with
 0 or more than 3 segments, an empty or >63-hop segment, more than 64 hop fields in total, a current index out of
-range or not fitting its 6-bit field, an unsupported path carrying a supported path type, an unknown SCMP message carrying a known type –
-then `try_encode_to_vec` returns an error: nothing is encoded with wrapped or truncated fields.
+range or not fitting its 6-bit field, an unsupported path carrying a supported path type, an unknown SCMP message carrying a known type,
+a next-header value or SCMP code that is the non-canonical alias `Other(k)` / `Unassigned(k)` of an assigned `k`
+(modelled as `256 + k`) –
+then `try_encode_to_vec` returns an error.  (This is the contrapositive of `encode ok ⇒ Representable`; that an
+accepted model is then written *without* truncation is the unproved whole-packet round trip, see checks/C03.json.)
 
 On the tree before the `fix:` commits of this property the statement was false (raw payload of 70 000 bytes →
 PayloadLen 4464; UDP payload of 65 530 bytes → PayloadLen 2; `Unknown{id:0, 4 bytes}` → decoded as IPv4;
@@ -48,6 +51,9 @@ example : (encode ⟨⟨0, 1, 17, 1, 2, .unknown 0 [10, 0, 0, 1], .v4 [10, 0, 0,
   decide
 example : ¬ (PacketM.Representable ⟨⟨0, 1, 17, 1, 2, .unknown 0 [10, 0, 0, 1], .v4 [10, 0, 0, 2], .empty⟩, .raw []⟩) := by
   simp [PacketM.Representable, HostAddr.Representable]
+/-- `ProtocolNumber::Other(17)` (= 256 + 17) aliases UDP: rejected (accepted before 700dda7) -/
+example : (encode ⟨⟨0, 1, 273, 1, 2, .v4 [10, 0, 0, 1], .v4 [10, 0, 0, 2], .empty⟩, .raw [1]⟩).toOption = none := by
+  decide
 
 /-! ## 2. checksum -/
 
